@@ -1,7 +1,8 @@
 (* Model of block initialisation: Circuit.init_sblock (edzed/simulator.py:465-508), the three
    phases _init_sblocks_sync_1 / _async / _sync_2 with _run_tasks (413-531), early
    initialisation by a pending event (edzed/block.py:568-574) and output events emitted while
-   initialising.  Event topologies are acyclic.  Definitions only. *)
+   initialising (event topologies may be cyclic: recursive event() calls are refused).
+   Definitions only. *)
 From Verif Require Export Values.
 Open Scope list_scope.
 Open Scope Z_scope.
@@ -27,30 +28,44 @@ Inductive call := CRestore (b : nat) | CAsync (b : nat) | CRegular (b : nat) | C
 Record istate := {
   steps : nat -> Z;          (* init_steps_completed: 0, -1, 1, -2, 2 *)
   inited : nat -> bool;      (* output is not UNDEF *)
+  active : nat -> bool;      (* _event_active: the block is inside its event() *)
   ilog : list call;
-  ierr : bool }.             (* an exception is propagating / the start-up has failed *)
+  ierr : bool;               (* the simulation was aborted / the start-up has failed (sticky) *)
+  iexn : bool }.             (* an exception is propagating to the caller *)
 
 Definition fupd {A} (f : nat -> A) (i : nat) (v : A) : nat -> A := fun k => if Nat.eqb k i then v else f k.
 Definition set_steps (s : istate) (b : nat) (v : Z) : istate :=
-  {| steps := fupd (steps s) b v; inited := inited s; ilog := ilog s; ierr := ierr s |}.
+  {| steps := fupd (steps s) b v; inited := inited s; active := active s; ilog := ilog s; ierr := ierr s; iexn := iexn s |}.
 Definition set_inited (s : istate) (b : nat) : istate :=
-  {| steps := steps s; inited := fupd (inited s) b true; ilog := ilog s; ierr := ierr s |}.
+  {| steps := steps s; inited := fupd (inited s) b true; active := active s; ilog := ilog s; ierr := ierr s; iexn := iexn s |}.
+Definition set_active (s : istate) (b : nat) (v : bool) : istate :=
+  {| steps := steps s; inited := inited s; active := fupd (active s) b v; ilog := ilog s; ierr := ierr s; iexn := iexn s |}.
 Definition add_log (s : istate) (c : call) : istate :=
-  {| steps := steps s; inited := inited s; ilog := ilog s ++ [c]; ierr := ierr s |}.
+  {| steps := steps s; inited := inited s; active := active s; ilog := ilog s ++ [c]; ierr := ierr s; iexn := iexn s |}.
 Definition set_err (s : istate) : istate :=
-  {| steps := steps s; inited := inited s; ilog := ilog s; ierr := true |}.
+  {| steps := steps s; inited := inited s; active := active s; ilog := ilog s; ierr := true; iexn := iexn s |}.
+Definition set_exn (s : istate) : istate :=
+  {| steps := steps s; inited := inited s; active := active s; ilog := ilog s; ierr := ierr s; iexn := true |}.
+Definition clear_exn (s : istate) : istate :=
+  {| steps := steps s; inited := inited s; active := active s; ilog := ilog s; ierr := ierr s; iexn := false |}.
+Definition halt (s : istate) : bool := ierr s || iexn s.
 
 Definition spec_of (T : list ispec) (b : nat) : ispec :=
   nth b T {| is_persistent := false; is_restore := RAbsent; is_async := None; is_regular := GNoEffect;
              is_initdef := false; is_handler_sets := false; is_dests := [] |}.
 
 (* set_output on block b, the 'put' event to block b and init_sblock, mutually recursive
-   through the output events; fuel bounds the depth of the cascade *)
+   through the output events; fuel bounds the depth of the cascade.  Exceptions (iexn) travel
+   back to the caller until something catches them:
+     - event(): an exception out of the handler or out of the early initialization aborts the
+       simulation (ierr), a recursive event() call is refused with an exception for the sender;
+     - _restore_state and init_async: the error is logged and suppressed;
+     - the synchronous passes: the start-up fails. *)
 Fixpoint set_output (fuel : nat) (T : list ispec) (s : istate) (b : nat) : istate :=
   match fuel with
   | O => set_err s
   | S f =>
-    if ierr s then s else
+    if halt s then s else
     if inited s b then s                 (* same value again: no output event *)
     else
       let s1 := set_inited s b in
@@ -60,18 +75,26 @@ with event_put (fuel : nat) (T : list ispec) (s : istate) (b : nat) : istate :=
   match fuel with
   | O => set_err s
   | S f =>
-    if ierr s then s else
+    if halt s then s else
+    if active s b then set_exn s         (* forbidden recursive event() call *)
+    else
+    let s0 := set_active s b true in
     (* a block that has not completed its synchronous steps completes them first *)
-    let s1 := if (0 <=? steps s b) && (steps s b <? 2) then init_sblock f T s b true else s in
-    if ierr s1 then s1 else
+    let s1 := if (0 <=? steps s0 b) && (steps s0 b <? 2) then
+                let r := init_sblock f T (set_active s0 b false) b true in
+                if iexn r then set_err r else set_active r b true
+              else s0 in
+    if halt s1 then set_active s1 b false else
     let s2 := add_log s1 (CHandler b) in
-    if is_handler_sets (spec_of T b) then set_output f T s2 b else s2
+    let s3 := if is_handler_sets (spec_of T b) then set_output f T s2 b else s2 in
+    let s4 := if iexn s3 then set_err s3 else s3 in
+    set_active s4 b false
   end
 with init_sblock (fuel : nat) (T : list ispec) (s : istate) (b : nat) (full : bool) : istate :=
   match fuel with
   | O => set_err s
   | S f =>
-    if ierr s then s else
+    if halt s then s else
     let st := steps s b in
     let sp := spec_of T b in
     let s1 :=
@@ -83,31 +106,32 @@ with init_sblock (fuel : nat) (T : list ispec) (s : istate) (b : nat) (full : bo
             | RAbsent => s'
             | RRaises => add_log s' (CRestore b)           (* the error is logged and ignored *)
             | RNoEffect => add_log s' (CRestore b)
-            | RSets => set_output f T (add_log s' (CRestore b)) b
+            | RSets => clear_exn (set_output f T (add_log s' (CRestore b)) b)
             end
           else s' in
         if ierr s'' then s'' else set_steps s'' b 1
       else s in
-    if ierr s1 then s1 else
+    if halt s1 then s1 else
     if (st =? 1) || ((st =? 0) && full) then
       let s2 := add_log (set_steps s1 b (-2)) (CRegular b) in
       let s3 := match is_regular sp with
                 | GNoEffect => s2
                 | GSets => set_output f T s2 b
-                | GRaises => set_err s2
+                | GRaises => set_exn s2
                 end in
-      if ierr s3 then s3 else
+      if halt s3 then s3 else
       let s4 := if negb (inited s3 b) && is_initdef sp
                 then set_output f T (add_log s3 (CFromValue b)) b else s3 in
-      if ierr s4 then s4 else set_steps s4 b 2
+      if halt s4 then s4 else set_steps s4 b 2
     else s1
   end.
 
-Definition fuel_of (T : list ispec) : nat := 3 * List.length T + 3.
+Definition fuel_of (T : list ispec) : nat := 4 * List.length T + 6.
 
 (* phase 1 / phase 3: init_sblock(full=False) for every block in creation order *)
 Definition sync_pass (T : list ispec) (s : istate) : istate :=
-  fold_left (fun acc b => init_sblock (fuel_of T) T acc b false) (seq 0 (List.length T)) s.
+  fold_left (fun acc b => let r := init_sblock (fuel_of T) T acc b false in
+                          if iexn r then set_err r else r) (seq 0 (List.length T)) s.
 
 (* ---- the asynchronous phase ---- *)
 (* tasks are started for blocks still uninitialised after phase 1 that have init_async and a
@@ -146,12 +170,18 @@ Fixpoint run_tasks (l : list (nat * Z * ascript)) (now : Z) (fin : list (Z * nat
   end.
 
 (* completions take effect in the order of their times (ties: creation order) *)
+Definition is_poll (sc : ascript) : bool := match sc with APoll _ => true | _ => false end.
+(* timers of one instant fire in the order of their creation: the poll timers of ValuePoll main
+   tasks are older than those of the init_async tasks, which were started in creation order *)
+Definition fin_before (x y : Z * nat * ascript) : bool :=
+  (fst (fst x) <? fst (fst y)) ||
+  ((fst (fst x) =? fst (fst y)) &&
+   ((is_poll (snd x) && negb (is_poll (snd y))) ||
+    (Bool.eqb (is_poll (snd x)) (is_poll (snd y)) && Nat.ltb (snd (fst x)) (snd (fst y))))).
 Fixpoint ins_fin (x : Z * nat * ascript) (l : list (Z * nat * ascript)) :=
   match l with
   | [] => [x]
-  | y :: r => if (fst (fst x) <? fst (fst y)) ||
-                 ((fst (fst x) =? fst (fst y)) && Nat.ltb (snd (fst x)) (snd (fst y)))
-              then x :: l else y :: ins_fin x r
+  | y :: r => if fin_before x y then x :: l else y :: ins_fin x r
   end.
 Definition sort_fin (l : list (Z * nat * ascript)) := fold_left (fun acc x => ins_fin x acc) l [].
 
@@ -164,14 +194,15 @@ Definition async_phase (T : list ispec) (s : istate) : istate * Z :=
                                   | _ => [] end) (seq 0 (List.length T)) in
   let fin' := filter (fun f => match snd f with APoll _ => false | _ => true end) fin ++ polls in
   (fold_left (fun acc f => match snd f with
-                           | ADone _ | APoll _ => set_output (fuel_of T) T acc (snd (fst f))
+                           | ADone _ | APoll _ => clear_exn (set_output (fuel_of T) T acc (snd (fst f)))
                            | _ => acc end) (sort_fin fin') s1, tend).
 
 Definition all_inited (T : list ispec) (s : istate) : bool :=
   forallb (inited s) (seq 0 (List.length T)).
 
 Definition istate0 : istate :=
-  {| steps := fun _ => 0; inited := fun _ => false; ilog := []; ierr := false |}.
+  {| steps := fun _ => 0; inited := fun _ => false; active := fun _ => false; ilog := []; ierr := false;
+     iexn := false |}.
 
 (* the whole start-up: (final state, duration of the asynchronous phase, success) *)
 Definition run_init (T : list ispec) : istate * Z * bool :=
@@ -203,7 +234,9 @@ Record icase := {
   ic_ok : bool;                     (* wait_init() returned normally *)
   ic_all_defined : bool;            (* every output differed from UNDEF at that moment *)
   ic_async_wait : Z;                (* virtual time spent in the start-up *)
-  ic_perm_ok : list bool }.         (* outcome of the same blocks created in every other order *)
+  ic_perm_ok : list bool;           (* outcome of the same blocks created in every other order *)
+  ic_handler_in_init : list bool }. (* per handled event, in log order: it arrived while one of the block's
+                                       own init routines was running (re-entrancy through a cyclic topology) *)
 
 Definition icase_agree (k : icase) : bool :=
   let '(s, tend, ok) := run_init (ic_specs k) in
@@ -224,6 +257,19 @@ Fixpoint never_before (a b : call) (l : list call) : bool :=   (* every b is pre
   | [] => true
   | x :: r => if call_eqb x a then true else if call_eqb x b then false else never_before a b r
   end.
+(* every handled event finds the block's synchronous steps completed (init_regular has run),
+   unless it arrives in the middle of one of the block's own init routines *)
+Fixpoint handlers_after_init (l : list call) (flags : list bool) (seen : list nat) : bool :=
+  match l with
+  | [] => true
+  | CRegular b :: r => handlers_after_init r flags (b :: seen)
+  | CHandler b :: r =>
+      match flags with
+      | fl :: flags' => (fl || existsb (Nat.eqb b) seen) && handlers_after_init r flags' seen
+      | [] => false
+      end
+  | _ :: r => handlers_after_init r flags seen
+  end.
 Definition max_timeout (T : list ispec) : Z :=
   fold_left (fun m sp => match is_async sp with Some (t, _) => Z.max m t | None => m end) T 0.
 
@@ -234,11 +280,11 @@ Definition icase_monitor (k : icase) : bool :=
     Nat.leb (count_call (CRestore b) (ic_log k)) 1 && Nat.leb (count_call (CRegular b) (ic_log k)) 1 &&
     Nat.leb (count_call (CFromValue b) (ic_log k)) 1 && Nat.leb (count_call (CAsync b) (ic_log k)) 1 &&
     before (CRestore b) (CRegular b) (ic_log k) && before (CRegular b) (CFromValue b) (ic_log k) &&
-    never_before (CRegular b) (CHandler b) (ic_log k) &&      (* no event is handled before init_regular ran *)
     (if is_initdef (spec_of (ic_specs k) b) then true
      else Nat.eqb (count_call (CFromValue b) (ic_log k)) 0) &&
     (if is_persistent (spec_of (ic_specs k) b) then true
      else Nat.eqb (count_call (CRestore b) (ic_log k)) 0)) (seq 0 n) &&
+  handlers_after_init (ic_log k) (ic_handler_in_init k) [] &&
   (ic_async_wait k <=? max_timeout (ic_specs k)) &&
   forallb (Bool.eqb (ic_ok k)) (ic_perm_ok k).
 
